@@ -13,8 +13,8 @@ where
 
 #[test]
 fn model_sign_verify() {
-    assert!(roundtrip::<Bls12381Sha256>(&[7u8; 32], Some(b"hd"), &[vec![1, 2], vec![3]]));
-    assert!(roundtrip::<Bls12381Shake256>(&[9u8; 32], None, &[]));
+    assert!(roundtrip::<Bls12381Sha256>(&[11u8; 32], Some(b"hd"), &[vec![1, 2], vec![3]]));
+    assert!(roundtrip::<Bls12381Shake256>(&[13u8; 32], None, &[]));
 }
 
 #[test]
@@ -37,4 +37,15 @@ fn reference_matches_model_sign() {
     let b = rf::b_value(&g.g1_base_point, &g.values[0], &g.values[1..], &d, &ms);
     assert_eq!(sig.e(), e, "e");
     assert_eq!(sig.a() * (sk.0 + e), b, "B");
+}
+
+#[test]
+fn dbg_values() {
+    type CS = Bls12381Sha256;
+    for k in 0..6u8 {
+        let kp = KeyPair::<BBSplus<CS>>::generate(&[k + 1; 32], None, None).unwrap();
+        let sk = kp.private_key().0;
+        let e = zkryptium::utils::util::bbsplus_utils::hash_to_scalar::<CS>(&[k, 2, 3], b"abc").unwrap();
+        println!("DBG k={} sk={:?} e={:?} sum={:?} inv_is_some={}", k, sk, e, sk + e, bool::from((sk + e).invert().is_some()));
+    }
 }
